@@ -131,6 +131,9 @@ macro_rules! combine_impls {
                         );
                         trace!("from sink: {message:?}");
                         if let Message::Handshake(sink) = message {
+                            #[cfg(feature = "verif")]
+                            #[allow(unused_imports)]
+                            use crate::verif::{ArcSwap, ArcSwapOption, AtomicUsize};
                             const N: usize = last_literal!($($idx,)+) + 1;
                             let n_start = Arc::new(AtomicUsize::new(N));
                             let n_data = Arc::new(AtomicUsize::new(N));
